@@ -227,7 +227,22 @@ for _k, _v in _ADD8.items():
     if _k in CHECKS and _v not in CHECKS[_k]["text"]:
         CHECKS[_k]["text"] += _v
 
-_COMMON_NOTE = " Reading of the sources: equivalent idioms are normalised on the parsed tree (sa/normalize.py), re-exports are followed, and functions that are not in the reference decomposition (sa/units_snapshot.json) are read at their call sites (sa/inline.py); if that reading is undecided the sources are read as written."
+_ADD9 = {
+    "C04": " R1 also reads the membership test written out as a search (a loop over the list, or its rows unrolled): `True` only where the value was found equal to a member, `False` only where it differs from every member.",
+    "C06": " R2: a line terminator whose origin cannot be read is undecided (exit 2), a text derived from the caller's data is a finding.",
+    "C07": " R4 — a predicate helper that only serves other boolean helpers is read with its callers.",
+    "C08": " R3 accepts `return await handler(…)` (the handler's answer handed on as it is); R4 reads the error member through a display chosen on two arms and requires every registry lookup to sit on a path that established membership.",
+    "C10": " R2/R3 read the fallback's dump through its own helpers (a one-loop generator over the instance dict is read as that loop; nested dumps that receive the running call's options as `**options` must be given its `by_alias`).",
+    "C12": " Added to R5: a CancelledError absorbed in the per-message routine of the sender must be the request's own — every non-raising exit of the handler has established that the sender task itself is not being cancelled (defect repaired in the repository, see known_findings.json).",
+    "C14": " The cancellation check is recognised under a local name that holds it, and as the bound method of a guard object read as closures.",
+    "C15": " R4 names the receiver of a hand-over by what it is (an entry of a table kept on the transport) whatever the local is called and whatever sentinel it starts as.",
+    "C19": " R1 reads `''.join(text.split('-'))` as the replace it is; R2/R3 accept a clock the embedding program may supply through the constructor (the wall clock when none is given), the id read back from the stored record, EAFP look-ups, and a deletion loop that counts as it goes.",
+}
+for _k, _v in _ADD9.items():
+    if _k in CHECKS and _v not in CHECKS[_k]["text"]:
+        CHECKS[_k]["text"] += _v
+
+_COMMON_NOTE = " Reading of the sources: equivalent idioms are normalised on the parsed tree (sa/normalize.py), re-exports are followed, and functions that are not in the reference decomposition (sa/units_snapshot.json) are read at their call sites (sa/inline.py); if that reading is undecided the sources are read as written, where new helpers are opaque calls: that second reading can clear the property or stay undecided, and a finding only it produces is reported as undecided (exit 2) together with what the first reading could not read."
 for _k in CHECKS:
     if _COMMON_NOTE not in CHECKS[_k]["note"]:
         CHECKS[_k]["note"] += _COMMON_NOTE
